@@ -482,7 +482,7 @@ fn concurrent_pollers(rep: &mut Report, rounds: usize) {
                 s.spawn(|| {
                     ready.fetch_add(1, SeqCst);
                     while !go.load(SeqCst) {
-                        std::hint::spin_loop();
+                        crate::util::pause();
                         #[cfg(miri)]
                         std::thread::yield_now();
                     }
@@ -511,6 +511,60 @@ fn concurrent_pollers(rep: &mut Report, rounds: usize) {
     }
 }
 
+
+
+/// A zero-sized hot-reloaded compound: there is no data a reload could change, but the reload
+/// itself must happen and be reported (loader run again, reload id + 1, watcher answers once).
+struct Marker;
+static MARKER_LOADS: std::sync::atomic::AtomicU64 = std::sync::atomic::AtomicU64::new(0);
+
+impl assets_manager::Compound for Marker {
+    fn load(cache: assets_manager::AnyCache, id: &assets_manager::SharedString) -> Result<Self, assets_manager::BoxedError> {
+        use assets_manager::source::Source;
+        let src = cache.raw_source();
+        src.read(id, "a")?;
+        MARKER_LOADS.fetch_add(1, std::sync::atomic::Ordering::SeqCst);
+        Ok(Marker)
+    }
+}
+
+fn zero_sized_reloads(rep: &mut Report, rounds: usize) {
+    use assets_manager::AssetCache;
+    use std::sync::atomic::Ordering::SeqCst;
+    let mem = Mem::new("c06z", Hot::Yes);
+    mem.write("z", "a", b"z0");
+    let cache = AssetCache::with_source(mem.clone());
+    let h = cache.load::<Marker>("z").expect("load marker");
+    let mut watcher = h.reload_watcher();
+    for r in 0..rounds {
+        rep.eval();
+        let loads0 = MARKER_LOADS.load(SeqCst);
+        let rid0 = crate::scen::rid_num(h.last_reload_id());
+        mem.write("z", "a", format!("z{}", r + 1).as_bytes());
+        mem.notify_file("z", "a");
+        let sent = mem.sent();
+        if !crate::util::wait_until(if cfg!(miri) { 600_000 } else { 120_000 }, || cache.verif_events_handled() == Some(sent)) {
+            rep.inconclusive("zero_sized_reloads: barrier watchdog");
+            return;
+        }
+        cache.hot_reload();
+        let loads = MARKER_LOADS.load(SeqCst) - loads0;
+        let rid = crate::scen::rid_num(h.last_reload_id());
+        let (w1, w2) = (watcher.reloaded(), watcher.reloaded());
+        let (g1, g2) = (h.reloaded_global(), h.reloaded_global());
+        if !(loads == 1 && rid == rid0 + 1 && w1 && !w2 && g1 && !g2) {
+            rep.violation(
+                "zero-sized-reload",
+                "C06/reload-of-zero-sized-asset-not-counted-exactly-once",
+                json!({"loader_runs_in_the_pass": loads, "reload_id": [rid0, rid], "watcher": [w1, w2], "reloaded_global": [g1, g2]}),
+                json!({"kind": "zero-sized hot-reloaded compound", "round": r}),
+            );
+            return;
+        }
+        rep.count("zero_sized_reload_rounds", 1);
+        rep.nontrivial(mix(0xc06b, r as u64));
+    }
+}
 
 /// A reader that keeps a guard alive while another thread is inside `hot_reload`: nothing
 /// may report the reload before the rewrite has happened (the rewrite needs the guard to
@@ -822,6 +876,7 @@ fn run_with(args: &Args, judge: Judge, silent: bool, rule: &str) -> Report {
     if silent {
         concurrent_pollers(&mut rep, if miri { 3 } else { args.n(1_500, 20_000) });
         guarded_poller(&mut rep, if miri { 2 } else { args.n(300, 5_000) });
+        zero_sized_reloads(&mut rep, if miri { 2 } else { args.n(50, 500) });
     }
     let nhist = if miri { args.n(2, 6) } else { args.n(250, 4_000) };
     let mut multi_total = 0;
